@@ -106,8 +106,16 @@ func BuildFunction(x *ast.FuncDecl, file *CodeContainer) *CodeFunction {
 func BuildFieldToProperty(fieldList []*ast.Field) []CodeProperty {
 	var properties []CodeProperty
 	for _, field := range fieldList {
-		property := BuildPropertyField(getFieldName(field), field)
-		properties = append(properties, *property)
+		// `a, b int` declares two names of one type; an unnamed field or result has none
+		if len(field.Names) < 2 {
+			property := BuildPropertyField(getFieldName(field), field)
+			properties = append(properties, *property)
+			continue
+		}
+		for _, name := range field.Names {
+			property := BuildPropertyField(name.Name, field)
+			properties = append(properties, *property)
+		}
 	}
 	return properties
 }
